@@ -19,25 +19,33 @@ inductive AEv where
   | other (s : String)
 deriving DecidableEq, Repr
 
+/-- `pre` is a prefix / `suf` a suffix of `s` (on character lists, so that `decide` can evaluate it) -/
+def hasPrefix (pre s : String) : Bool := pre.toList.isPrefixOf s.toList
+def hasSuffix (suf s : String) : Bool := suf.toList.reverse.isPrefixOf s.toList.reverse
+
+/-- The extractor prints shared fields by role (`$K` the `sync.Mutex`, `$T` the `sync.RWMutex`, `$index` the tree,
+    `$known` the slice of known rules, `$default` the default rule) and the local holding the result of
+    `$index.Clone()` as `$clone`, whatever they are called in the source; helper methods touching shared state are
+    inlined.  A call of a receiver method on the clone is the computation on the private copy, whatever its name. -/
 def abstractEv (s : String) : Option AEv :=
-  if s = "lock knownRulesMutex" then some .lockK
-  else if s = "defer unlock knownRulesMutex" then some .deferUnlockK
-  else if s = "read knownRules" then some .readKnown
-  else if s = "read index" then none                    -- always followed by the call that uses it
-  else if s = "call index.Clone" then some .cloneIndex
-  else if s = "bind tmp index.Clone" then none
-  else if s = "call addRulesTo tmp" ∨ s = "call removeRulesFrom tmp" then some .compute
+  if s = "lock $K" then some .lockK
+  else if s = "defer unlock $K" then some .deferUnlockK
+  else if s = "read $known" then some .readKnown
+  else if s = "read $index" then none                    -- always followed by the call that uses it
+  else if s = "call $index.Clone" then some .cloneIndex
+  else if s = "bind $clone $index.Clone" then none
+  else if hasPrefix "call " s ∧ hasSuffix " $clone" s ∧ ¬ hasPrefix "call $" s then some .compute
   else if s = "if {" ∨ s = "}" then none
-  else if s = "return err" then some .returnErr
-  else if s = "write knownRules append(..)" ∨ s = "write knownRules slices.DeleteFunc(..)" then some .writeKnown
-  else if s = "lock rulesTreeMutex" then some .lockT
-  else if s = "write index tmp" then some .writeIndex
-  else if s = "unlock rulesTreeMutex" then some .unlockT
+  else if s = "return var" then some .returnErr
+  else if hasPrefix "write $known " s then some .writeKnown
+  else if s = "lock $T" then some .lockT
+  else if s = "write $index $clone" then some .writeIndex
+  else if s = "unlock $T" then some .unlockT
   else if s = "return nil" ∨ s = "return value" then some .returnOk
-  else if s = "rlock rulesTreeMutex" then some .rlockT
-  else if s = "defer runlock rulesTreeMutex" then some .deferRUnlockT
-  else if s = "call index.Find" then some .search
-  else if s = "bind entry index.Find" ∨ s = "bind err index.Find" ∨ s = "read dr" then none
+  else if s = "rlock $T" then some .rlockT
+  else if s = "defer runlock $T" then some .deferRUnlockT
+  else if s = "call $index.Find" then some .search
+  else if (hasPrefix "bind " s ∧ hasSuffix " $index.Find" s) ∨ s = "read $default" then none
   else some (.other s)
 
 def abstract (evs : List String) : List AEv := evs.filterMap abstractEv
